@@ -10,14 +10,14 @@ import (
 
 func init() {
 	register(&propDef{
-		ID:  "C12",
-		Run: ruleC12,
+		ID:          "C12",
+		Run:         ruleC12,
 		Explanation: "Decides completeness, consistency and confinement of namespace pseudonymisation structurally (necessary conditions of C12): (R1) from the point where attr is known to be a map, every path to a successful return of the line function passes the redactNamespaces test that guards Set(attr,\"ns\",HashName(attr.ns)); (R2) each of the three command-document dispatch sites is paired with the namespace rewriter on the same map, additionally guarded only by the flag; (R3) the rewriter's constant key list contains every declared verb and it stores HashName of the string read from the same key; (R4) the namespace-bearing stage arguments are typed Namespace in the reconstructed tables and both Namespace arms of the pipeline walker store HashName(value) for strings under the flag; (R5) every namespace rewrite applies the one pseudonym function to the original string; (R6) every call of the pseudonym function is control dependent (directly or through all its callers) on the redactNamespaces flag, a boolean field-name parameter or the per-line namespace-prefix test - with the flags off nothing is renamed. NOT decided: whole-line absence of names the tool does not claim to know, string vs object forms of $out/$merge.into, pseudonym collisions.",
 		RuleText:    "obligations = success returns of the line function (must-pass-through), dispatch sites, rewriter keys, table entries, Namespace-arm sinks, every HashName call site (guard atoms, inherited through callers)",
 	})
 	register(&propDef{
-		ID:  "C15",
-		Run: ruleC15,
+		ID:          "C15",
+		Run:         ruleC15,
 		Explanation: "Decides the wiring of field-name redaction structurally (necessary conditions of C15): (R1) the per-line mode flag is true only via strings.HasPrefix(attr.ns, p) with p ranging over the whole --redactFieldNames list, and is the argument of all command-walker calls and the guard of the plan-summary rewrite; (R2) at every walker-to-walker call the callee's field-name flag is the caller's own flag parameter (the mode can neither be lost nor gained below the root); (R3) under the flag every map walker renames non-operator keys with HashName(current key), '$'-strings that are not operators are stored as HashName(string), and the sort document is dispatched; (R4) every rename is control dependent on the flag (shared with C12-R6); (R5) the plan-summary rewrite is reached on every path on which the mode holds, uses HashName, and never substitutes over its own output (no Replace whose haystack is loop-carried from its previous result with a pseudonym as replacement). NOT decided: whole-line absence for arbitrary names; whether every grammar position that holds a user field name is typed FieldName.",
 		RuleText:    "obligations = the mode flag's definition, each walker call site carrying the flag (about 30), map-walker loops (key phi), '$'-string sinks, plan-summary guard and rewrite shape, HashName call-site guards",
 	})
@@ -64,6 +64,46 @@ func (p *Prov) isEagerPrefixTest(a Atom) bool {
 	}
 	g, ok := gl.X.(*ssa.Global)
 	return ok && g.Name() == "eagerRedactionPaths"
+}
+
+// rewriteBeforeReadProblems: reads of attr[key] in the line function that can execute
+// after the rewrite of attr[key] - such a read sees the pseudonym instead of the
+// original, so a decision taken on it (the per-line field-name mode) changes with the flag.
+func rewriteBeforeReadProblems(c *Ctx, root *ssa.Function, key string) (nSets int, bad []string) {
+	var sets, gets []*ssa.Call
+	allInstrs(root, func(i ssa.Instruction) {
+		call, ok := i.(*ssa.Call)
+		if !ok {
+			return
+		}
+		switch calleeKey(&call.Call) {
+		case omMethod("Set"):
+			if k, ok := constString(call.Call.Args[1]); ok && k == key {
+				sets = append(sets, call)
+			}
+		case omMethod("Get"):
+			if k, ok := constString(call.Call.Args[1]); ok && k == key {
+				gets = append(gets, call)
+			}
+		}
+	})
+	for _, st := range sets {
+		after := map[*ssa.BasicBlock]bool{}
+		for _, s := range st.Block().Succs {
+			for b := range reachableLive(s) {
+				after[b] = true
+			}
+		}
+		for _, g := range gets {
+			if g.Call.Args[0] != st.Call.Args[0] {
+				continue
+			}
+			if after[g.Block()] || (g.Block() == st.Block() && instrIndex(g) > instrIndex(st)) {
+				bad = append(bad, fmt.Sprintf("attr.%s is read at %s after it was rewritten at %s", key, c.InstrPos(g), c.InstrPos(st)))
+			}
+		}
+	}
+	return len(sets), bad
 }
 
 // fnGuards: guards inherited from every reference (call or function value) of f.
@@ -397,6 +437,12 @@ func ruleC12(c *Ctx, r *Report) {
 
 	// ---- R6: confinement
 	confinementRule(c, r, p, "C12-R6", func(gs []string) bool { return true }, "--redactNamespaces / the field-name mode")
+	{
+		n, bad := rewriteBeforeReadProblems(c, root, "ns")
+		r.Check(len(bad) == 0 && n > 0, "C12-R6", root.Name()+":ns-rewritten-after-its-last-read", c.Pos(root.Pos()),
+			"attr.ns is rewritten only after every read of it: the per-line field-name mode and everything else is decided on the original namespace, so the flag changes nothing but the names",
+			"with --redactNamespaces other decisions see the pseudonym instead of the namespace: "+strings.Join(bad, "; "))
+	}
 }
 
 // ---------------------------------------------------------------- C15
@@ -503,6 +549,12 @@ func ruleC15(c *Ctx, r *Report) {
 		}
 	}
 	r.Check(okMode, "C15-R1", root.Name()+":mode-definition", c.Pos(root.Pos()), "mode is true only under strings.HasPrefix(attr.ns, p), p ranging over the whole configured list", detail)
+	{
+		_, bad := rewriteBeforeReadProblems(c, root, "ns")
+		r.Check(len(bad) == 0, "C15-R1", root.Name()+":mode-reads-original-ns", c.Pos(root.Pos()),
+			"the namespace the mode is decided on is the line's original attr.ns (no rewrite of attr.ns can precede the read)",
+			"the per-line mode is decided on a rewritten namespace: "+strings.Join(bad, "; "))
+	}
 	for _, d := range callsIn(root, func(k string, cc *ssa.Call) bool { return cc.Call.StaticCallee() == cmdFn }) {
 		key, _ := getKeyOfValue(d.Call.Args[0])
 		okArg := false
